@@ -160,6 +160,9 @@ impl AsyncFileSystem for AsyncOverlayFS {
         if !write_path.exists().await? {
             // look the file up first: a failing append must not materialise parent directories
             let read_path = self.read_path(path).await?;
+            if read_path.metadata().await?.file_type != VfsFileType::File {
+                return Err(VfsErrorKind::Other("Not a file".into()).into());
+            }
             self.ensure_has_parent(path).await?;
             read_path.copy_file(&write_path).await?;
         }
